@@ -44,6 +44,15 @@ CHECKS = {
  "C13": ("differential-enumeration", "exploration", "exhaustive enumeration of closure-calling programs against a reference interpreter",
          "All programs calling for_each/filter/map_values/map_keys over {object, array} x {0,1,2 elements, event field} x 7 closure bodies (succeeds, fails on every/2nd element, returns, aborts, assigns its parameter, nested closure) x parameter names pre-bound or unset x {bare, `?? \"failed\"`, `ok, err =`} on the 10-event alphabet; RuntimeState::variable of every parameter name after the run must equal the reference (restored or unset).",
          "As C06. replace_with is exercised by the stdlib sweep only.", "3.2"),
+ "C14": ("scheduler + histories", "model_checking", "stateless exhaustive exploration of thread interleavings under a controlled scheduler on the real code; exhaustive event-pair histories; cross-process compile digests",
+         "(C) ALL interleavings of 2 threads (thorough 3, preemption bound 3) sharing one Arc<Program> at the scheduling points of hook H3 (thread start and the four lock operations of the schema cache, the only shared mutable state in src/), two-call scenarios with preemption bound 2: every thread's result/event equals its solo run, no deadlock, one schedule replayed twice must give identical observations; (B) run(h); clear(); run(e) vs fresh run(e) for every ordered pair of 5 events x ~1100 accepted programs, shared and recompiled Program, incl. validate_json_schema with a flag-dependent schema; (A) ~2150 programs compiled twice in-process and twice in fresh processes (different hash seeds): identical outcome digest (acceptance, error codes and spans, warnings, ProgramInfo, final types).",
+         "Interleavings inside dependencies are not controlled; data races are excluded by the type system (no unsafe shared state). The scheduler models the one RwLock; a new shared-state site is listed in the evidence as unmodelled.", "3.10"),
+ "C15": ("config-enumeration", "exploration", "exhaustive enumeration of read-only configurations x mutator programs x events",
+         "Every configuration of 1 or 2 read-only entries over 9 event/metadata paths x {recursive, non-recursive} (162) x every mutator statement (355: assignments, |=, `ok, err =` in both positions, del with/without compact, writes inside closures/if/handled blocks over 23 target paths incl. parents, children, quoted aliases, negative indices; whole-event rewrites through stdlib calls and aliases) and ordered mutator pairs under single-entry configurations, on 7 events: a program ACCEPTED under the configuration must leave every read-only path unchanged (deep equality for recursive entries).",
+         "Non-recursive entries: only the identity of the value at the path is judged (the configuration permits writes below it).", "3.1"),
+ "C17": ("fault-enumeration", "fault_enumeration", "exhaustive enumeration of fault sets over the recorded target-operation trace of each run",
+         "~630 accepted programs (target-touching statements of the product-machine alphabet, one statement per direct user of the Target trait on event and metadata, ordered pairs of a core alphabet) x 4 events x {Runtime::resolve, Program::resolve}: the fault-free run on a logging Target gives the operation trace; EVERY non-empty set of <= 2 (thorough 3) operations is made to fail: never a panic; identical outcome, final target and later operations to the run with the same operations SKIPPED; a failing root read ends Runtime::resolve with an error.",
+         "Error texts are not compared.", "3.9"),
  "C16": ("product-machine", "model_checking", "explicit-state BFS on the real compiler/runtime with a logging Target; coverage invariant on every target operation",
          "Same exploration as C01 run on a Target wrapper that logs every target_get/get_mut/insert/remove: each read must be covered (equal, ancestor or descendant) by ProgramInfo.target_queries, each insert by target_assignments, each remove by either list.",
          "`del` mutates without assigning: removes may be covered by queries or assignments.", "3.1"),
@@ -113,6 +122,9 @@ ENGINES = [
  ("law-engine", "harness/src/law.rs", "flat exhaustive enumeration of fully described cases through compiled VRL snippets / public APIs, compared with a reference"),
  ("text-enumeration", "harness/src/props/c33.rs", "all token sequences / single-token edits through parse, compile and diagnostic rendering"),
  ("program-enumeration", "harness/src/props/c34.rs", "all programs of a candidate x context grammar; edit-and-compare"),
+ ("scheduler + histories", "harness/src/sched.rs", "CHESS-style controlled scheduler over real OS threads at hook H3's points; depth-first enumeration of all schedules by re-execution (harness/src/props/c14.rs)"),
+ ("config-enumeration", "harness/src/props/c15.rs", "all read-only configurations x mutator programs x events"),
+ ("fault-enumeration", "harness/src/props/c17.rs", "all fault sets over recorded target-operation traces (harness/src/target.rs)"),
  ("value-bfs", "harness/src/props/c18.rs", "explicit-state BFS over Value states on the real crud code"),
  ("kind-simulation", "harness/src/props/c19.rs", "explicit-state BFS over (value, kind) pairs; simulation relation"),
 ]
